@@ -197,6 +197,36 @@ def run_c12(tier):
             viol.append((f"C12:R:pool-unusable-after-heal:{tag}", f"{res.get('after')}", a))
         if len(samples) < 3:
             samples.append(dict(case=a, tracker_pids=sorted(tps), heals=res["heals"]))
+    # the first tracked operation after a tracker death, by kind x descriptor layout
+    hjobs = [dict(op=op, fill=fill, context=ctxname, watchdog=100)
+             for op in ("lock", "register", "getfd", "process", "executor")
+             for fill in (False, True)
+             for ctxname in (("loky",) if tier == "quick" else ("loky", "loky_init_main"))]
+    with cf.ThreadPoolExecutor(5) as tp:
+        hrs = list(tp.map(lambda a: runner.run("healop", a, None, timeout=120,
+                                               module="vf.real.treescn"), hjobs))
+    for a, r in zip(hjobs, hrs):
+        cases += 1
+        tag = f"{a['op']}:{'filled' if a['fill'] else 'sparse'}:{a['context']}"
+        res = r["result"]
+        if r["status"] != "ok" or not res:
+            viol.append((f"C12:R:scenario-failed:healop:{tag}", f"{r['status']} rc={r['rc']} {r['stdio'][-500:]}", a))
+            continue
+        if res["ok"] is not True or res["new"] in (None, res["old"]):
+            viol.append((f"C12:R:no-self-heal:{tag}", f"first tracked operation after the death: {res}", a))
+            continue
+        if len(res["own_trackers"]) != 1 or res["own_trackers"][0] != res["new"]:
+            viol.append((f"C12:R:tracker-count-after-heal:{tag}", f"{res}", a))
+        ch = res.get("child")
+        if a["op"] in ("process", "executor"):
+            if not ch or ch.get("ok") is not True:
+                viol.append((f"C12:R:child-tracked-op-fails-after-heal:{tag}",
+                             f"the process started as first tracked operation after the death "
+                             f"cannot use the tracker: child={ch} parent={res}", a))
+            elif ch["tracker_pid"] != res["new"] or ch.get("own_trackers") or ch.get("warned"):
+                viol.append((f"C12:R:child-not-on-the-tree-tracker:{tag}",
+                             f"child reports tracker {ch['tracker_pid']} (own: {ch.get('own_trackers')}, "
+                             f"warnings {ch.get('warned')}), the root relaunched {res['new']}", a))
     # signals during the tracker's start-up
     for label in ("tracker.start", "tracker.sig_ignored", "tracker.unblocked"):
         cases += 1
